@@ -130,7 +130,9 @@ fam(Family("control", {
           "(if $e $e $e)", "(if $e $e)", "(and $e $e)", "(or $e $e)", "(and $e $e $e)", "(or $e $e $e)",
           "(when $e $e)", "(unless $e $e)", "(cond $e $e $e)", "(cond $e $e $e $e)",
           "(case $e 0 $e $e)", "(case $e nil $e :k $e)", "(not $e)", "(do $e $e)", "(if-not $e $e $e)",
-          "(set x $e)", "(= nil $e)", "(not= nil $e)", "(if (= nil $e) $e $e)", "(if (not= $e nil) $e $e)"],
+          "(set x $e)", "(= nil $e)", "(not= nil $e)", "(if (= nil $e) $e $e)", "(if (not= $e nil) $e $e)",
+          "(if (= nil nil) $e $e)", "(if (= nil :k) $e $e)", "(if (not= nil nil) $e $e)", "(if (not= 0 nil) $e $e)",
+          "(if (= false nil) $e $e)", "(if nil $e $e)", "(if 0 $e $e)", "(if (= nil a) $e $e)", "(if (not= nil x) $e $e)"],
 }, quick=3, thorough=4, extra=5, ctx_thorough=ALL_CTX))
 
 
